@@ -751,6 +751,40 @@ def multimap_dataset(seed):
     return ds
 
 
+def is_saved_data_file(fn):
+    """the files a `--read_assignments <prefix>` restart reads: <prefix>_info, <prefix>_<chr>, <prefix>_multimappers_<chr>
+    (lock / stat / group side files of the same prefix are rewritten by every run and are not part of the saves)"""
+    if not fn.startswith("S.save_"):
+        return False
+    tail = fn[len("S.save_"):]
+    if tail == "info" or tail.startswith("multimappers_"):
+        return True
+    return "_" not in tail and tail != "lock"
+
+
+def snapshot_saved(aux):
+    res = {}
+    if os.path.isdir(aux):
+        for fn in sorted(os.listdir(aux)):
+            if is_saved_data_file(fn):
+                with open(os.path.join(aux, fn), "rb") as f:
+                    res[fn] = f.read()
+    return res
+
+
+def saved_files_intact(run):
+    """None, or how the saved files differ after the first / second restart from what the saving run left"""
+    for label, snap in (("first", run.get("after_b", {})), ("second", run.get("after_c", {}))):
+        if label == "second" and run.get("rcC") is None:
+            continue
+        for fn, data in run.get("saved", {}).items():
+            if fn not in snap:
+                return "saved file %s no longer exists after the %s --read_assignments restart" % (fn, label)
+            if snap[fn] != data:
+                return "saved file %s was modified by the %s --read_assignments restart" % (fn, label)
+    return None
+
+
 def pipeline_pair(ctx):
     """runs once per check: A = run that keeps its intermediate files, B = run restarted from them"""
     if "dir" in _PIPE:
@@ -773,9 +807,24 @@ def pipeline_pair(ctx):
         prefix = os.path.join(outA, "S", "aux", "S.save")
         argsB = ["--threads", "1", "--read_assignments", prefix, "--reference", paths["ref"], "--data_type", "nanopore",
                  "-p", "S", "--no_gzip", "--genedb", paths["gtf"], "--complete_genedb"]
+        # the saved files, snapshotted right after the saving run (the restart must not touch them)
+        saved, aux_copy = {}, os.path.join(d, tag, "aux_after_A")
+        if rcA == 0 and os.path.isdir(os.path.dirname(prefix)):
+            shutil.copytree(os.path.dirname(prefix), aux_copy)
+            for fn in sorted(os.listdir(aux_copy)):
+                if is_saved_data_file(fn):
+                    with open(os.path.join(aux_copy, fn), "rb") as f:
+                        saved[fn] = f.read()
         rcB, logB = (None, "") if rcA else P.run_isoquant(outB, argsB, home=os.path.join(d, "home"), timeout=150)
-        runs.append({"tag": tag, "outA": outA, "outB": outB, "rcA": rcA, "rcB": rcB, "logA": logA[-1500:], "logB": logB[-1500:],
-                     "prefix": prefix})
+        after_b = snapshot_saved(os.path.dirname(prefix)) if rcA == 0 else {}
+        # a second restart from the same prefix: saved assignments can be reused more than once
+        outC = os.path.join(d, tag, "outC")
+        argsC = [a if a != outB else outC for a in argsB]
+        rcC, logC = (None, "") if (rcA or rcB) else P.run_isoquant(outC, argsC, home=os.path.join(d, "home"), timeout=150)
+        after_c = snapshot_saved(os.path.dirname(prefix)) if rcA == 0 else {}
+        runs.append({"tag": tag, "outA": outA, "outB": outB, "outC": outC, "rcA": rcA, "rcB": rcB, "rcC": rcC,
+                     "logA": logA[-1500:], "logB": logB[-1500:], "logC": logC[-1500:], "prefix": prefix,
+                     "aux_copy": aux_copy, "saved": saved, "after_b": after_b, "after_c": after_c})
     _PIPE["runs"] = runs
     return _PIPE
 
@@ -797,7 +846,7 @@ def pipeline_files_correspondence(ctx):
             if run["rcA"] != 0:
                 ctx.notes.append("pipeline run A failed (rc=%s): %s" % (run["rcA"], run["logA"][-300:]))
                 continue
-            aux = os.path.dirname(run["prefix"])
+            aux = run["aux_copy"]
             for fn in sorted(os.listdir(aux)):
                 path = os.path.join(aux, fn)
                 if not fn.startswith("S.save_"):
@@ -1041,17 +1090,12 @@ def multimap_case(ls):
     return None
 
 
-def compare_outputs(run):
-    """file-by-file diff of run A (saved its assignments) and run B (restarted from them)"""
+def _diff_outputs(dirA, dirB, prefB):
     import pipeline as P
-    if run["rcA"] != 0:
-        return "saving run failed rc=%s: %s" % (run["rcA"], run["logA"][-400:])
-    if run["rcB"] != 0:
-        return "run restarted from saved assignments failed rc=%s: %s" % (run["rcB"], run["logB"][-400:])
-    fa = P.out_files(run["outA"], "S")
-    fb = P.out_files(run["outB"], "S0")
+    fa = P.out_files(dirA, "S")
+    fb = P.out_files(dirB, prefB)
     na = {k[len("S."):]: v for k, v in fa.items()}
-    nb = {k[len("S0."):]: v for k, v in fb.items()}
+    nb = {k[len(prefB) + 1:]: v for k, v in fb.items()}
     if set(na) != set(nb):
         return "output file sets differ: %s" % sorted(set(na) ^ set(nb))
     for k in sorted(na):
@@ -1064,6 +1108,27 @@ def compare_outputs(run):
                 if x != y:
                     return "%s line %d: %r vs %r" % (k, i + 1, x[:200], y[:200])
             return "%s: %d vs %d lines" % (k, len(a), len(b))
+    return None
+
+
+def compare_outputs(run):
+    """reuse clause on one dataset: run A saved its assignments; restart B and a second restart C from the same
+    prefix must each reproduce A's outputs file by file, and must leave the saved files byte-identical"""
+    if run["rcA"] != 0:
+        return "saving run failed rc=%s: %s" % (run["rcA"], run["logA"][-400:])
+    if run["rcB"] != 0:
+        return "run restarted from saved assignments failed rc=%s: %s" % (run["rcB"], run["logB"][-400:])
+    r = _diff_outputs(run["outA"], run["outB"], "S0")
+    if r:
+        return "first restart: " + r
+    r = saved_files_intact(run)
+    if r:
+        return r
+    if run["rcC"] != 0:
+        return "second restart from the same saved assignments failed rc=%s: %s" % (run["rcC"], run["logC"][-400:])
+    r = _diff_outputs(run["outA"], run["outC"], "S0")
+    if r:
+        return "second restart: " + r
     return None
 
 
